@@ -520,6 +520,9 @@ inductive Gate where
   | fail (e : VErr) (v : VSock)   -- `return Err(e)`
   | proceed (v : VSock)           -- fall through to acknowledgement / payload processing
 
+def Gate.vsock : Gate → VSock
+  | .dropPacket v | .fail _ v | .proceed v => v
+
 /-- The state-transition table. -/
 def stateGate (v : VSock) (hdr : Header) : Gate :=
   let ty := hdr.htype
@@ -730,6 +733,13 @@ def nextTimerToPoll (v : VSock) : VSock × Option Nat :=
   let v := { v with timers := { v.timers with pipeExpiry := none } }
   (v, (ts.filterMap id).foldl (fun acc t => match acc with | none => some t | some a => some (min a t)) none)
 
+/-- "give the remote last chance": once we are past our own FIN the inactivity timer is (kept) armed,
+at most `SHUTDOWN_FINAL_CHANCE_DELAY` ahead unless something restarts it. -/
+def armFinalChance (v : VSock) : VSock :=
+  if v.state.isLocalFinOrLater then
+    { v with timers := { v.timers with inactivity := Timer.arm v.timers.inactivity v.pollNow SHUTDOWN_FINAL_CHANCE_DELAY false } }
+  else v
+
 inductive PollResult where
   | pending
   | readyOk
@@ -798,9 +808,7 @@ def pollIteration (v : VSock) (c : Ctx) : VSock × Ctx × Step :=
     let (v, c) := v.justBeforeDeath c none
     (v, c, .done .readyOk)
   else
-  let v := if v.state.isLocalFinOrLater then
-      { v with timers := { v.timers with inactivity := Timer.arm v.timers.inactivity v.pollNow SHUTDOWN_FINAL_CHANCE_DELAY false } }
-    else v
+  let v := v.armFinalChance
   let (v, next) := v.nextTimerToPoll
   match next with
   | some instant =>
